@@ -267,6 +267,11 @@ def run(ctx):
             fn = enclosing_function(n)
             first = [s for s in fn.body if not (isinstance(s, ast.Expr) and isinstance(s.value, ast.Constant))][0]
             ok = lab == 'QueryPlanner.__init__' or (lab == 'QueryPlanner.from_query' and st is first)
+            if not ok:
+                # ... or among the resets from_query performs before anything else, possibly through a reset helper (C20.entry_prelude_resets)
+                from . import C20 as _C20
+                entry_ = next((m for m in qpl.node.body if isinstance(m, ast.FunctionDef) and m.name == 'from_query'), None)
+                ok = entry_ is not None and any(st is s_ for _a, s_ in _C20.entry_prelude_resets(qpl.node, entry_))
             ctx.ob('C09.append-only', f'{lab}:self.plan-rebind', ok and norm(st.value) == 'QueryPlan()',
                    f'{lab} replaces the plan object in the middle of planning: references minted for the old plan point nowhere',
                    file=qpl.file, line=n.lineno)
